@@ -9,6 +9,7 @@ import (
 	"go/token"
 	"go/types"
 	"sort"
+	"strings"
 
 	"golang.org/x/tools/go/ssa"
 )
@@ -216,4 +217,111 @@ func lockReentrancy(p *Program, r *Report) {
 		}
 	}
 	r.Check(n > 0, "mutex acquisitions examined for re-entrancy", token.NoPos, fmt.Sprintf("%d acquisitions of struct-field mutexes: no call made while one is held runs a same-receiver method that acquires the same mutex", n))
+}
+
+// lockPanicSafety — a mutex held while user code runs is released by defer.
+//
+// User code (an Actor's hooks, option functions, behaviours) may panic, and callers recover such panics (supervision, or the
+// caller's own recover). A mutex released by an explicit Unlock after the call stays locked when the call panics: every later
+// acquirer blocks for ever. For every acquisition of a struct-field mutex that is released explicitly only (no deferred release
+// registered in the function), no call between the acquisition and the release reaches — through module functions, depth 4 — an
+// invoke of an interface of the library's public package or a call of a function value of a named function type of that package.
+func lockPanicSafety(p *Program, r *Report) {
+	root := p.tpkg("")
+	memo := map[*ssa.Function]int{}
+	var runsUser func(fn *ssa.Function, depth int) bool
+	runsUser = func(fn *ssa.Function, depth int) bool {
+		if v, ok := memo[fn]; ok {
+			return v == 1
+		}
+		memo[fn] = 2
+		res := false
+		for _, b := range fn.Blocks {
+			for _, in := range b.Instrs {
+				c := callOf(in)
+				if c == nil {
+					continue
+				}
+				if _, isGo := in.(*ssa.Go); isGo {
+					continue
+				}
+				if c.IsInvoke() {
+					// hooks the user implements: On… methods, providers, codecs — not the interfaces the library itself implements
+					// for its references, contexts and mailboxes
+					if nt := namedOf(c.Value.Type()); nt != nil && nt.Obj().Pkg() == root {
+						m := c.Method.Name()
+						if strings.HasPrefix(m, "On") || m == "Provide" || m == "Encode" || m == "Decode" {
+							res = true
+						}
+					}
+					continue
+				}
+				if y := c.StaticCallee(); y != nil {
+					if depth > 0 && p.inModule(y) && len(y.Blocks) > 0 && runsUser(y, depth-1) {
+						res = true
+					}
+					continue
+				}
+				if _, isB := c.Value.(*ssa.Builtin); isB {
+					continue
+				}
+				if nt := namedOf(c.Value.Type()); nt != nil && nt.Obj().Pkg() == root {
+					res = true
+				}
+			}
+		}
+		if res {
+			memo[fn] = 1
+		}
+		return res
+	}
+	n := 0
+	for _, fn := range p.Mod {
+		if len(fn.Blocks) == 0 {
+			continue
+		}
+		g := p.ig(fn)
+		for i, in := range g.Nodes {
+			op, f, _, deferred := mutexOp(in)
+			if deferred || f == nil || (op != "Lock" && op != "RLock") {
+				continue
+			}
+			n++
+			rel := p.releaseNodes(g, map[string]string{"Lock": "Unlock", "RLock": "RUnlock"}[op], f)
+			hasDefer := false
+			explicit := map[int]bool{}
+			for k := range rel {
+				if _, isD := g.Nodes[k].(*ssa.Defer); isD {
+					hasDefer = true
+				} else {
+					explicit[k] = true
+				}
+			}
+			if hasDefer || len(explicit) == 0 {
+				continue
+			}
+			section := g.ReachAfter(i, explicit, nil)
+			for k := range section {
+				if k == i {
+					continue
+				}
+				c := callOf(g.Nodes[k])
+				if c == nil {
+					continue
+				}
+				if _, isGo := g.Nodes[k].(*ssa.Go); isGo {
+					continue
+				}
+				y := c.StaticCallee()
+				if y == nil || !p.inModule(y) || len(y.Blocks) == 0 {
+					continue
+				}
+				memo = map[*ssa.Function]int{}
+				if runsUser(y, 4) {
+					r.Violate("mutex "+ownerName(f)+"."+f.Name()+" held across user code in "+fnName(fn)+" without a deferred release", g.Nodes[k].Pos(), "the call to "+fnName(y)+" can run user code (actor hooks, option functions), which may panic and be recovered by the caller; the explicit release after it is skipped then and the mutex stays locked for ever")
+				}
+			}
+		}
+	}
+	r.Check(n > 0, "explicitly released mutexes examined for panic safety", token.NoPos, fmt.Sprintf("%d acquisitions: none that is released explicitly only is held across a call that can run user code", n))
 }
